@@ -20,11 +20,15 @@ Section G.
   Local Notation "a [*] b" := (rmul o a b) (at level 40, left associativity).
   Local Notation zero := (r0 o).
   Local Notation lsum := (lsum o).
-  (* the integrands of the two forms: anything extensionally equal to the product (inner(u, v) on scalar fields) *)
-  Variables mk lk : R -> R -> R.
-  Hypothesis mk_mul : forall u v, mk u v = u [*] v.
-  Hypothesis lk_mul : forall w v, lk w v = w [*] v.
-
+  (* the integrands of the two forms: anything that, on the tuple-of-fields values rebuilt from the component
+     functions, is the sum over ALL components of the products (inner(u, v): u*v on scalar fields, dot on vector fields,
+     summed over the fields of a composite element) *)
+  Variables mk lk : list (list R) -> list (list R) -> R.
+  Definition kernel_is_dot (k : list (list R) -> list (list R) -> R) : Prop :=
+    forall (sh : list nat) (f g : nat -> R),
+      k (unflatten sh f) (unflatten sh g) = C06_Galerkin.lsum o (fun c => f c [*] g c) (seq 0 (ncomp sh)).
+  Hypothesis mk_dot : kernel_is_dot mk.
+  Hypothesis lk_dot : kernel_is_dot lk.
   (* ---------------------------------------------------------------- finite sums over lists *)
   Lemma lsum_ext {A} (f g : A -> R) l : (forall a, In a l -> f a = g a) -> lsum f l = lsum g l.
   Proof. induction l as [|a l IH]; intros H; simpl; [reflexivity|]. rewrite H by now left. rewrite IH; auto. intros; apply H; now right. Qed.
@@ -57,12 +61,19 @@ Section G.
   Lemma local_identity (B : fe R) x e i :
     Lloc o lk B x e i = lsum (fun j => Kloc o mk B e i j [*] vnth o x (gdof B e j)) (seq 0 (nloc B)).
   Proof.
-    unfold Lloc, Kloc, interp.
-    transitivity (lsum (fun q => lsum (fun j => vnth o x (gdof B e j) [*] phi B e q j [*] phi B e q i [*] dxw B e q)
+    unfold Lloc, Kloc.
+    set (cs := seq 0 (ncomp (shape B))).
+    transitivity (lsum (fun q => lsum (fun j =>
+                    lsum (fun c => phi B e q j c [*] phi B e q i c) cs [*] dxw B e q [*] vnth o x (gdof B e j))
                                       (seq 0 (nloc B))) (seq 0 (nq B))).
-    { apply lsum_ext. intros q _. rewrite lk_mul, !lsum_scale_r. reflexivity. }
+    { apply lsum_ext. intros q _. rewrite lk_dot. fold cs. unfold interp.
+      transitivity (lsum (fun c => lsum (fun j => phi B e q j c [*] phi B e q i c [*] vnth o x (gdof B e j)) (seq 0 (nloc B))) cs
+                    [*] dxw B e q).
+      { f_equal. apply lsum_ext. intros c _. rewrite lsum_scale_r. apply lsum_ext. intros j _. ring. }
+      rewrite lsum_exchange, lsum_scale_r. apply lsum_ext. intros j _.
+      rewrite <- lsum_scale_r. ring. }
     rewrite lsum_exchange. apply lsum_ext. intros j _. rewrite lsum_scale_r. apply lsum_ext. intros q _.
-    rewrite mk_mul. ring.
+    rewrite mk_dot. reflexivity.
   Qed.
 
   (* ---------------------------------------------------------------- global level *)
